@@ -37,4 +37,8 @@ def pyIndex {α : Type} (xs : List α) (i : Int) : M α :=
   | some a => pure a
   | none => throw .indexError
 
+/-- `xs.pop()` as a statement: the list without its last element; `IndexError` on an empty list -/
+def pyPop {α : Type} (xs : List α) : M (List α) :=
+  if xs.isEmpty then throw .indexError else pure xs.dropLast
+
 end Ckpt.Py
